@@ -2,9 +2,9 @@
 # tools/intake.sh <prop> [check-prop...]  : confirm each /tmp/wt-<prop>/_out/m*, run the checks, file it under /verif/seeded/
 set -u
 p=$1; shift; checks=${*:-$p}
-for d in /tmp/wt-$p/_out/m*; do
+for d in ${WT:-/tmp/wt-}$p/_out/m*; do
   [ -f "$d/patch.diff" ] || continue
-  i=$(basename $d); id=M-$p-$i
+  i=$(basename $d); id=${IDP:-M}-$p-$i
   conf=$(${VERIF_SNAP:-/verif}/tools/confirm_mutant.sh "$d" 2>&1 | tail -1)
   res=""
   for c in $checks; do
